@@ -60,6 +60,7 @@ def realise(ctx, org, k):
     if o == "fail": assert False, "M"
     if o == "error": raise RuntimeError("X")
     if o == "pending": raise StepNotImplementedError("P")
+    if o == "abort": ctx.abort(reason="step asks to abort the run")
     if o == "kbd": raise KeyboardInterrupt()
     if o == "skip": sc.skip("S")
 
